@@ -241,6 +241,11 @@ func (me *multiEndpoint) switchFromTo(f, t *endpoint) {
 		me.Lock()
 		defer me.Unlock()
 		if e, ok := me.endpoints[me.future]; ok && e.status == available {
+			// The switch is outdated if meanwhile the current endpoint got a higher priority than
+			// the target and is still usable (available or recovering).
+			if c, ok := me.endpoints[me.current]; ok && c.status != unavailable && c.priority < e.priority {
+				return
+			}
 			me.current = e.id
 		}
 	})
